@@ -184,7 +184,19 @@ class SymArray:
     def flatten(self): return self._w(self.a.flatten())
     def ravel(self): return self._w(self.a.ravel())
     def squeeze(self, *a, **k): return self._w(self.a.squeeze(*a, **k))
-    def view(self, *a, **k): raise Unsupported('ndarray.view')
+    def view(self, *a, **k):
+        # the one reinterpretation that is value-level arithmetic: a C-contiguous float64 array read as complex128 pairs (re, im) along the last axis
+        t = a[0] if a else k.get('dtype')
+        try:
+            ok = np.dtype(t) == np.complex128 and self._dt is np.float64 and self.dom.name == 'alg' and self.a.ndim >= 1 and self.a.shape[-1] % 2 == 0
+        except TypeError:
+            ok = False
+        if not ok:
+            raise Unsupported('ndarray.view')
+        import sympy as _sp
+        z = np.empty(self.a.shape[:-1] + (self.a.shape[-1] // 2,), dtype=object)
+        z[...] = self.a[..., 0::2] + _sp.I * self.a[..., 1::2]
+        return SymArray(z, np.complex128, self.dom)
     def conj(self): return self.dom.conj(self)
     conjugate = conj
 
